@@ -120,7 +120,7 @@ class Ob(object):
             r, m = self.ex.pc.model()
             return self._add(name, kind, 'failed' if r == z3.sat else 'undecided', {'model': m, 'cond': 'False'})
         gf = list(self.ex.ghost_facts) if kind in ('ghost', 'rank', 'lemma') else []
-        if gf and len(gf) > 12:
+        if (gf and len(gf) > 12) or len(self.ex.pc.facts) > 150:
             # first try with the facts that are relevant to the goal only (ground facts sharing symbols with it, closure of
             # depth 3): nonlinear real queries are decided quickly when they are small.  unsat here is unsat of the full set.
             if _prove_relevant(self.ex, cond, gf):
@@ -263,30 +263,70 @@ def _symbols(e, acc=None):
             continue
         seen.add(i)
         if z3.is_app(x) and x.decl().kind() == z3.Z3_OP_UNINTERPRETED:
-            acc.add(x.decl().name() if x.num_args() == 0 else str(x))
+            acc.add(x.decl().name() if x.num_args() == 0 else x.sexpr())     # sexpr(): the python pretty-printer (str) is ~100x slower
         if z3.is_quantifier(x):
             continue
         stack.extend(x.children())
     return acc
 
 
+_FACT_CACHE = {}      # z3 ast id -> (the fact itself (keeps the id alive), has a quantifier, frozenset of its symbols)
+
+
+def _fact_info(f):
+    i = f.get_id()
+    c = _FACT_CACHE.get(i)
+    if c is None or c[0] is not f and not c[0].eq(f):
+        q = z3.is_quantifier(f) or _has_quantifier(f)
+        c = (f, q, frozenset() if q else frozenset(_symbols(f)))
+        if len(_FACT_CACHE) > 200000:
+            _FACT_CACHE.clear()
+        _FACT_CACHE[i] = c
+    return c
+
+
 def _prove_relevant(ex, cond, ghost_facts, depth=3, timeout_ms=8000):
-    pool = [f for f in list(ex.pc.facts) + list(ghost_facts) if not z3.is_quantifier(f) and not _has_quantifier(f)]
-    syms = _symbols(cond)
-    chosen = []
-    rest = [(f, _symbols(f)) for f in pool]
+    # the path condition of a long path holds thousands of facts (range facts of index entries ...): the symbol set of a fact is
+    # computed once per fact, not once per obligation
+    # inverted index symbol -> facts, kept on the path condition and extended as the (append-only) fact list grows
+    pc = ex.pc
+    idx = getattr(pc, '_sym_index', None)
+    if idx is None or idx['n'] > len(pc.facts) or (idx['n'] and idx['first'] is not pc.facts[0]):
+        idx = {'n': 0, 'by_sym': {}, 'infos': [], 'first': pc.facts[0] if pc.facts else None}
+        pc._sym_index = idx
+    for f in pc.facts[idx['n']:]:
+        c = _fact_info(f)
+        k = len(idx['infos'])
+        idx['infos'].append(c)
+        if not c[1]:
+            for sy in c[2]:
+                idx['by_sym'].setdefault(sy, []).append(k)
+    idx['n'] = len(pc.facts)
+    if idx['first'] is None and pc.facts:
+        idx['first'] = pc.facts[0]
+    ginfos = [c for c in (_fact_info(f) for f in ghost_facts) if not c[1]]
+    syms = set(_symbols(cond))
+    chosen, taken, gtaken = [], set(), set()
+    frontier = set(syms)
     for _ in range(depth):
-        nxt = []
-        added = False
-        for f, sy in rest:
-            if sy & syms:
-                chosen.append(f)
-                syms |= sy
-                added = True
-            else:
-                nxt.append((f, sy))
-        rest = nxt
-        if not added:
+        new_syms = set()
+        for sy in frontier:
+            for k in idx['by_sym'].get(sy, ()):
+                if k not in taken:
+                    taken.add(k)
+                    c = idx['infos'][k]
+                    chosen.append(c[0])
+                    new_syms |= c[2] - syms
+        for j, c in enumerate(ginfos):
+            if j not in gtaken and (c[2] & frontier):
+                gtaken.add(j)
+                chosen.append(c[0])
+                new_syms |= c[2] - syms
+        if not new_syms and not frontier:
+            break
+        syms |= new_syms
+        frontier = new_syms
+        if not frontier:
             break
     s = z3.Solver()
     s.set('timeout', timeout_ms)
